@@ -31,6 +31,8 @@ pub mod c18;
 #[cfg(feature = "full")]
 pub mod c19;
 #[cfg(feature = "full")]
+pub mod c23;
+#[cfg(feature = "full")]
 pub mod c24;
 #[cfg(feature = "full")]
 pub mod c25;
@@ -88,6 +90,7 @@ pub fn all() -> Vec<Property> {
         v.push(Property { id: "C16", level: "exploration", build: c16::build });
         v.push(Property { id: "C18", level: "exploration", build: c18::build });
         v.push(Property { id: "C19", level: "exploration", build: c19::build });
+        v.push(Property { id: "C23", level: "exploration", build: c23::build });
         v.push(Property { id: "C24", level: "exploration", build: c24::build });
         v.push(Property { id: "C25", level: "exploration", build: c25::build });
         v.push(Property { id: "C26", level: "exploration", build: c26::build });
@@ -117,6 +120,7 @@ pub fn child_main(args: &[String]) -> i32 {
         #[cfg(feature = "full")]
         "--child-parse" => c32::child_parse(&args[1]),
         "--child-c38" => c38::child_scalar(&args[1], &args[2]),
+        "--child-c23" => crate::det::child_main(&args[1]),
         _ => 2,
     }
 }
